@@ -307,7 +307,7 @@ class Model:
     def alias(self, m: MTable, new_id: str, name: str | None, keep: bool) -> MTable:
         nm = name if name is not None else m.name
         if keep:
-            return m.child(new_id, "alias_keep", name=nm, n_alias=m.n_alias + 1, same_as=m.id if not m.hidden() else None, ung=None)
+            return m.child(new_id, "alias_keep", name=nm, n_alias=m.n_alias + 1, same_as=m.id if not m.hidden() else None)
         mp, lin_map = self._fresh(m, new_id, m.scope)
         res = m.child(
             new_id,
@@ -322,7 +322,8 @@ class Model:
             n_alias=m.n_alias + 1,
             order_fixed=False,
             same_as=m.id,
-            ung=None,
+            # an alias alone does not start a new SELECT: the summarize level persists
+            ung=None if m.ung is None else frozenset(mp[t] for t in m.ung if t in mp),
         )
         res.origins = frozenset({new_id})
         return res
@@ -389,5 +390,6 @@ class Model:
             padded=src.padded if same else frozenset(),
             rowid=(src.rowid if (same and src.rowid is not None and all(t in vt for t in src.rowid)) else None),
         )
-        res.origins = frozenset({new_id})
+        # carries the column identities of `src`: derived from it for the purpose of join validation
+        res.origins = frozenset({new_id}) | src.origins
         return res
